@@ -101,6 +101,11 @@ where
         author: &VerifyingKey,
         logs: &[L],
     ) -> Result<Option<BTreeMap<L, SeqNum>>, Self::Error> {
+        // Without any logs there's nothing to query (and the SQL "IN" clause can't be empty).
+        if logs.is_empty() {
+            return Ok(None);
+        }
+
         let mut encoded_log_ids = Vec::new();
         for log in logs {
             let encoded_log_id =
